@@ -18,8 +18,27 @@ def line(x):
     return {"fmt": x[0], "s": T.cps(x[1])}
 
 
+def design(ctx):
+    """Design level (TLC only): the class-offset layout of a tag model makes the reference tag scorer compute the per-category
+    classifiers; the mutant that advances the offset for single-candidate categories is rejected."""
+    consts = {"Layouts": {1, 2, 3, 4, 5}, "CNs": {1, 2}, "TNs": {1, 2}, "Alphabet": {97, 12354}, "MaxText": 4 if ctx.quick else 5,
+              "OffsetCountsFixed": False}
+    res = vlib.tlc("C12-mc-tagtrainer", "MC_TagTrainer", vlib.cfg_text(constants=consts, invariants=["ModelComputesClassifiers", "VectorSizes"]),
+                   timeout=3000)
+    if res["violated"]:
+        raise vlib.ToolError("MC_TagTrainer: design-level invariant violated: " + res["violated"])
+    ctx.add_tlc(res, "MC_TagTrainer: class-offset layout => stored candidate scores = learned classifiers, 5 category layouts x n-gram sizes, "
+                     "every text up to the bound")
+    consts["OffsetCountsFixed"] = True
+    resm = vlib.tlc("C12-mut-tagtrainer", "MC_TagTrainer", vlib.cfg_text(constants=consts, invariants=["ModelComputesClassifiers"]))
+    if resm["violated"] != "ModelComputesClassifiers":
+        raise vlib.ToolError("spec mutant (class offset advanced for single-candidate categories) was not rejected by TLC")
+    ctx.add_part(spec_mutant="class offset advanced for single-candidate categories", rejected_by="ModelComputesClassifiers")
+
+
 def run(ctx):
     binp = vlib.build_harness()
+    design(ctx)
     q = ctx.quick
     ctx.rule = ("corpora = subsets (size <= 3, thorough <= 4) of a pool of tagged sentences (tokens with 0..2 categories, absent tags, "
                 "ambiguous tags, partially annotated lines) + tag dictionaries (tokens that only appear there); TLC (Gen_Inventory) "
